@@ -139,4 +139,17 @@ PROPS = {
         "not_decided": ["liveness (every accepted value is delivered if the run continues)", "the C++ memory model",
                         "conflating and burst policies", "PushSourceSenderControl"],
     },
+    "C08": {
+        "modules": ["contracts.c08_feedback"],
+        "level": "proof",
+        "design_ref": "DESIGN.md section 8, C08",
+        "trusted_base": [
+            "try_copy_feedback_state overwrites the state with its source when it returns true; capture_delta(ts) is this cycle's delta of ts (C20)",
+            "the source ranks before the sink (rank edge on ts_self, C01 wiring) and C02 honours the T + MIN_TD request at exactly that time",
+            "NodeBuilder::native keeps the schema it is given; C03 activation honours active_inputs/valid_inputs",
+        ],
+        "assumptions": [],
+        "not_decided": ["equality of values for collection shapes (C20 capture/apply)", "feedback inside nested graphs beyond C09 delegation",
+                        "quiescence with a passive reader as a whole-run statement (only the selectors are proved)"],
+    },
 }
